@@ -100,6 +100,31 @@ def ground_curve_family (rng):
     return spec
 # end def ground_curve_family
 
+def gap_family (rng):
+    """ a finely and a coarsely segmented wire whose ends face each other across a gap wider than the matching
+        tolerance of the structure (1e-3 of its shortest segment) and narrower than 1e-3 of the coarse segments:
+        two separate conductors, no pulse across the gap """
+    f, lam, segl, rad = gen.pick_scale (rng, 1 / 80., 1 / 40.)
+    s   = segl / 2
+    n1, n2 = int (rng.integers (4, 10)), int (rng.integers (2, 5))
+    k   = float (rng.choice ([3.0, 4.0, 5.0]))
+    a   = np.zeros (3)
+    b   = np.array ([n1 * s, 0, 0.])
+    u   = gen.rot_matrix (rng) @ np.array ([1.0, 0, 0])
+    g   = s * 1e-3 * float (rng.uniform (1.4, 0.8 * k))
+    st  = b + u * g
+    d   = np.array ([np.cos (1.1), np.sin (1.1), 0.3]); d /= np.linalg.norm (d)
+    en  = st + d * n2 * k * s
+    r   = min (rad, s / 10)
+    fine, coarse = gen.wire (n1, a, b, r), (gen.wire (n2, st, en, r) if rng.random () < 0.5 else gen.wire (n2, en, st, r))
+    geo = [fine, coarse] if rng.random () < 0.7 else [coarse, fine]
+    R   = gen.rot_matrix (rng)
+    for w in geo:
+        w ['p1'] = (R @ np.array (w ['p1'])).tolist ()
+        w ['p2'] = (R @ np.array (w ['p2'])).tolist ()
+    return dict (f = f, geo = geo, fam = 'gap%g' % k, media = None, src = [], loads = [])
+# end def gap_family
+
 def make (c):
     if 'corpus' in c:
         spec = corpus.make (c, 2)
@@ -107,6 +132,11 @@ def make (c):
         return spec
     rng = np.random.default_rng ([c ['seed'], 2, c ['i']])
     u   = rng.random ()
+    if c ['i'] % 16 == 9:
+        spec = gap_family (np.random.default_rng ([c ['seed'], 21, c ['i']]))
+        for i, g in enumerate (spec ['geo']):
+            g ['tag'] = i + 1
+        return spec
     if u < 0.15:
         spec = curve_family (rng) if rng.random () < 0.6 else ground_curve_family (rng)
     elif u < 0.6:
